@@ -76,20 +76,28 @@ func staticProgram(g *elvcore.Gen, chunks []*elvcore.Node) ([]elvcore.Event, err
 				}
 			}
 			if len(args) > 0 {
-				oe, err := elvcore.RunChunk(ev, elvcore.Chunk(elvcore.Stmt(elvcore.Cmd("put", args...))))
+				oe, err := runChecked(ev, elvcore.Chunk(elvcore.Stmt(elvcore.Cmd("put", args...))))
 				if err != nil {
 					return nil, err
 				}
 				evs = append(evs, oe)
 			}
 		}
-		e, err := elvcore.RunChunk(ev, ch)
+		e, err := runChecked(ev, ch)
 		if err != nil {
 			return nil, err
 		}
 		evs = append(evs, e)
 	}
 	return evs, nil
+}
+
+// runChecked: Evaler.Check on the chunk in the current context, then the evaluation.
+func runChecked(ev *eval.Evaler, ch *elvcore.Node) (elvcore.Event, error) {
+	chk := checkClass(ev, elvcore.Render(ch))
+	e, err := elvcore.RunChunk(ev, ch)
+	e.Check = chk
+	return e, err
 }
 
 // validated: V.  Core programs with an injected defect, judged by TraceStatic.
@@ -135,6 +143,10 @@ func validated(c *lib.Ctx) error {
 		}
 		gi := sort.SearchInts(start, b.Index+1) - 1
 		e := flat[b.Index]
+		if kind == "check-valid" {
+			c.Reject("static-v:check-valid", fmt.Sprintf("Evaler.Check reports a %v error for chunk %q, which Evaler.Eval then compiled and ran in the same context", b.Info[1:], e.Src), flat[start[gi]:b.Index+1])
+			continue
+		}
 		if kind == "static" {
 			c.Reject("static-v:"+e.Kinds[0]+":"+e.Cls, fmt.Sprintf("defective chunk %q (injected %v): real code gave class=%s values=%d bytes=%d check=%s/%s names-unchanged=%v; specification prescribes class %v, no output, Check agreeing, names unchanged",
 				e.Src, e.Kinds, e.Cls, e.NOut, e.NBytes, e.Check, e.CheckAfter, e.Names, b.Info[1:]), flat[start[gi]:b.Index+1])
